@@ -419,6 +419,34 @@ func c05Verdict(c *Ctx, fname string) {
 		thresholdIf = ifs
 		good := (be.Op == token.GEQ && objOf(info, be.X) == sevObj && objOf(info, be.Y) == failOn) ||
 			(be.Op == token.LEQ && objOf(info, be.X) == failOn && objOf(info, be.Y) == sevObj)
+		// the same test written as a skip: `if sev < failOn { continue }` followed by the update
+		if !good && len(ifs.Body.List) == 1 && ifs.Else == nil {
+			if br, isBr := ifs.Body.List[0].(*ast.BranchStmt); isBr && br.Tok == token.CONTINUE && br.Label == nil {
+				neg := (be.Op == token.LSS && objOf(info, be.X) == sevObj && objOf(info, be.Y) == failOn) ||
+					(be.Op == token.GTR && objOf(info, be.X) == failOn && objOf(info, be.Y) == sevObj)
+				if neg {
+					good = true
+					after := false
+					for _, bs := range loop.Body.List {
+						if bs == ast.Stmt(ifs) {
+							after = true
+							continue
+						}
+						if !after || verdict != nil {
+							continue
+						}
+						switch x := bs.(type) {
+						case *ast.AssignStmt:
+							if len(x.Lhs) == 1 {
+								verdict = objOf(info, x.Lhs[0])
+							}
+						case *ast.IncDecStmt:
+							verdict = objOf(info, x.X)
+						}
+					}
+				}
+			}
+		}
 		c.Check(good, "C05-R2", short+":threshold comparison is sev >= failOn", ifs.Cond.Pos(), exprStr(ifs.Cond), "threshold comparison is `"+exprStr(ifs.Cond)+"`, must be severity >= fail-on")
 		for _, bs := range ifs.Body.List {
 			switch x := bs.(type) {
